@@ -60,6 +60,15 @@ Definition accept_args (d : direction) (w : wargs) : option args :=
            end
   end.
 
+(** defaultConnectionCost (pagination.go:226-235): the connection's resolver costs 1 and hands
+    maxCount = [last] if it is an int, else [first], else 0 to the [edges] field, whose cost function
+    (pagination.go:436-441) multiplies its sub-selection by it; cursor, pageInfo and its fields cost 0 *)
+Definition max_edge_count (ar : args) : Z :=
+  match a_last ar with
+  | Some l => l
+  | None => match a_first ar with Some f => f | None => 0 end
+  end.
+
 Section ModelF.
   Variables C E : Type.
   Variable ltb : C -> C -> bool.
